@@ -98,6 +98,12 @@ func sectionFollow(c *Ctx, pkgPath string) func(*types.Func) bool {
 				if isWaitChGetter(sig.Params().At(i).Type()) {
 					has = true
 				}
+				// … or the wait channel itself (the blocking select extracted into a function)
+				if ch, ok := sig.Params().At(i).Type().Underlying().(*types.Chan); ok && !f.Exported() {
+					if st, ok := ch.Elem().Underlying().(*types.Struct); ok && st.NumFields() == 0 {
+						has = true
+					}
+				}
 			}
 		}
 		if d != nil && !has {
@@ -168,7 +174,7 @@ func selectHasArmOn(sel *ast.SelectStmt, w *types.Var, fr *core.Frame) bool {
 			x = comm.Rhs[0]
 		}
 		if u, ok := unparen(x).(*ast.UnaryExpr); ok && u.Op == token.ARROW {
-			if identVar(u.X, fr) == w {
+			if iv(u.X, fr) == w {
 				return true
 			}
 		}
@@ -319,7 +325,7 @@ func (s *r2State) waiterPath(e core.Entry, p *core.Path) {
 			windowStart = i
 		case core.KRecv:
 			if !ev.InSelect {
-				if w := identVar(ev.Chan, ev.Frame); w != nil {
+				if w := iv(ev.Chan, ev.Frame); w != nil {
 					checkWait(i, ev, w)
 				}
 				windowStart = i
